@@ -99,15 +99,33 @@ def _alarm(*_):
     raise _Timeout()
 
 
+# Two example shapes (the model is the same for both):
+#   'dict'  : {'t': tv, 'a': [k, {'b': nv}]}
+#   'tuple' : ([tv], [k, {'b': nv}])  - an immutable top level with mutable
+#             insides, as key_zip / zip / items() / a map returning a tuple make
+SHAPE = ['dict']
+
+
 def example(k, tv=0, nv=0):
+    if SHAPE[0] == 'tuple':
+        return ([tv], [k, {'b': nv}])
     return {'t': tv, 'a': [k, {'b': nv}]}
+
+
+def _parts(x):
+    """(holder of the top value, nested list) of an example of either shape."""
+    if isinstance(x, tuple):
+        return x[0], x[1]
+    return x, x['a']
 
 
 def content(x, k):
     """(tv, nv) when x deep-equals the example of key k with these two fields,
     (-1, -1) for anything else."""
     try:
-        tv, nv = x['t'], x['a'][1]['b']
+        top, nest = _parts(x)
+        tv = top[0] if isinstance(x, tuple) else top['t']
+        nv = nest[1]['b']
         if type(tv) is int and type(nv) is int and x == example(k, tv, nv):
             return tv, nv
     except Exception:
@@ -116,12 +134,15 @@ def content(x, k):
 
 
 def _same_top(x, y):
+    if isinstance(x, tuple) and isinstance(y, tuple):
+        return x[0] is y[0]          # (equal tuples may be one object: look inside)
     return x is y
 
 
 def _same_nested(x, y):
     try:
-        return x['a'] is y['a'] or x['a'][1] is y['a'][1]
+        a, b = _parts(x)[1], _parts(y)[1]
+        return a is b or a[1] is b[1]
     except Exception:
         return False
 
@@ -135,12 +156,12 @@ def _stored_objects(ds):
         c = getattr(d, '_cache', None)
         inner = getattr(c, 'cache', None)
         if isinstance(inner, dict):
-            out += [v for v in inner.values() if isinstance(v, (dict, list))]
+            out += [v for v in inner.values() if isinstance(v, (dict, list, tuple))]
         ex = getattr(d, 'examples', None)
         if isinstance(ex, dict):
-            out += [v for v in ex.values() if isinstance(v, (dict, list))]
+            out += [v for v in ex.values() if isinstance(v, (dict, list, tuple))]
         elif isinstance(ex, (list, tuple)):
-            out += [v for v in ex if isinstance(v, (dict, list))]
+            out += [v for v in ex if isinstance(v, (dict, list, tuple))]
         d = getattr(d, 'input_dataset', None)
         if d is None:
             break
@@ -186,10 +207,14 @@ def access(ds, path, k):
 
 
 def _mutate(x, lvl, stamp):
+    top, nest = _parts(x)
     if lvl == 'top':
-        x['t'] = stamp
+        if isinstance(x, tuple):
+            top[0] = stamp
+        else:
+            top['t'] = stamp
     else:
-        x['a'][1]['b'] = stamp
+        nest[1]['b'] = stamp
 
 
 NOOBS = {'exc': 'none', 'tv': 0, 'nv': 0, 'at': [], 'an': [], 'ast': False, 'asn': False}
@@ -209,6 +234,8 @@ def execute(par, hist, timeout=30.0):
     try:
         with warnings.catch_warnings():
             warnings.simplefilter('ignore')
+            import zlib
+            SHAPE[0] = 'tuple' if zlib.crc32(json.dumps(hist, sort_keys=True).encode()) % 2 else 'dict'
             exs = [example(j) for j in range(n)]
             container = {KEYS[j]: exs[j] for j in range(n)} if par['src'] == 'dict' else list(exs)
             ckey = (lambda k: KEYS[k - 1]) if par['src'] == 'dict' else (lambda k: k - 1)
